@@ -247,6 +247,20 @@ func stripedRun[BT, ST signal.SignalTypes](c *Case, read bool) (res kit.Result) 
 		res.Failf("%s did not panic", what)
 		return
 	}
+	if c.N == 0 {
+		// no slices at all can also be spelled as a nil outer slice
+		var none [][]ST
+		if read {
+			panicked, _ = kit.Try(func() { signal.ReadStriped(w, none) })
+		} else {
+			panicked, _ = kit.Try(func() { signal.WriteStriped(none, w) })
+		}
+		if !panicked {
+			res.Failf("%s (a nil outer slice) did not panic", what)
+			return
+		}
+		res.Class("nilOuterSlice")
+	}
 	if d := kit.DiffSlice("buffer storage", kit.Snap(root), model); d != "" {
 		res.Failf("%s panicked after modifying: %s", what, d)
 		return
